@@ -678,8 +678,8 @@ class Runner:
             elif seqv.ty in ('dict', 'set'):
                 q = z3.Select(ex.harr(st, '$dkeys'), rv(seqv.t))
                 dict_ref = rv(seqv.t)
-            elif seqv.ty == 'str':
-                raise OutOfSubset('for over a string')
+            elif seqv.ty in ('str', 'char', 'bytes'):
+                q = None
             elif seqv.ty is None:
                 isl = z3.And(is_r(seqv.t), z3.Or(typ(rv(seqv.t)) == 1, typ(rv(seqv.t)) == 3))
                 isd = z3.And(is_r(seqv.t), z3.Or(typ(rv(seqv.t)) == 2, typ(rv(seqv.t)) == 4))
@@ -687,11 +687,21 @@ class Runner:
                 q = z3.If(isl, ex.seq_of(st, seqv.t), z3.Select(ex.harr(st, '$dkeys'), rv(seqv.t)))
             else:
                 raise OutOfSubset('for over %s' % seqv.ty)
-            q0 = z3.Const(fresh_name('iter'), SeqV)
-            st.assume(q0 == q)
-            q = q0
-            length = z3.Length(q)
-            elem = lambda i: Val(q[i], None)
+            if q is None:
+                # iteration over a str yields its characters, over bytes its byte values
+                sx = sv(seqv.t) if seqv.ty != 'bytes' else yv(seqv.t)
+                length = z3.Length(sx)
+                if seqv.ty == 'bytes':
+                    elem = lambda i: Val(mk_i(z3.StrToCode(z3.SubString(sx, i, 1))), 'int')
+                else:
+                    elem = lambda i: Val(mk_s(z3.SubString(sx, i, 1)), 'char')
+                q = z3.Empty(SeqV)
+            else:
+                q0 = z3.Const(fresh_name('iter'), SeqV)
+                st.assume(q0 == q)
+                q = q0
+                length = z3.Length(q)
+                elem = lambda i: Val(q[i], None)
         outs = self.drain()
         ki = z3.Int(fresh_name('loop_i'))
         gh = {'loop_i': Val(mk_i(ki), 'int'), 'loop_seq': Val(q if rng is None else z3.Empty(SeqV), 'seq')}
